@@ -1,72 +1,166 @@
-import DL.Lemmas.CFSound5
+import DL.Lemmas.CFSound5b
+import DL.Lemmas.CFKids2
+import DL.Lemmas.CFLabel
+import DL.Lemmas.CFSwitch4
+import DL.Lemmas.CFTry6
 
-/-! Soundness invariant: the mutual induction over statements and statement lists, and whole programs. -/
+/-! Soundness invariant: the mutual induction over statements, statement lists and expressions with nested functions. -/
 namespace DL.CF
 
 theorem PostL.nil (live : Bool) (a : A) (hpre : Pre live [] a) :
-    PostL live [] Compl.normal (fun _ => false) a a :=
-  ⟨fun h => by simp [hpre.hs h], by simp, by simp, id, id, hpre.fb, fun _ h _ => absurd h (by simp), fun _ _ => rfl⟩
+    PostL live [] [] Compl.normal (fun _ => false) (fun _ => false) a a :=
+  ⟨fun h => by simp [hpre.hs h], by simp, by simp, id, id, by simp, fun _ h _ => absurd h (by simp),
+    fun _ h _ => absurd h (by simp), fun _ _ => rfl, id, by simp⟩
 
-mutual
-theorem visitStmt_ok : ∀ (s : Stmt) (live : Bool) (a : A), s.inF = true → Pre live s.positions a →
-    PostS live s a (visitStmt s a)
-  | .simple p t kids, live, a, hf, h => simple_ok live p t kids a (by simpa [Stmt.inF] using hf) h
-  | .block p b, live, a, hf, h =>
-    have hf' : b.inF = true := by simpa [Stmt.inF] using hf
-    block_ok live p b a h (fun a0 h0 => visitStmts_ok b live a0 hf' h0) (fun q hq => b.reach_false q hf' hq)
-  | .ifS p t c none, live, a, hf, h =>
-    have hf' : t.flat = true ∧ c.inF = true := by simpa [Stmt.inF] using hf
-    if_none_ok live p t c a hf'.1 h (fun a0 h0 => visitStmt_ok c live a0 hf'.2 h0)
-  | .ifS p t c (some al), live, a, hf, h =>
-    have hf' : (t.flat = true ∧ c.inF = true) ∧ al.inF = true := by simpa [Stmt.inF] using hf
-    if_some_ok live p t c al a hf'.1.1 hf'.1.2 hf'.2 h (fun a0 h0 => visitStmt_ok c live a0 hf'.1.2 h0)
-      (fun a0 h0 => visitStmt_ok al live a0 hf'.2 h0)
-  | .whileS p t tt b, live, a, hf, h =>
-    have hf' : t.flat = true ∧ b.inF = true := by simpa [Stmt.inF] using hf
-    while_ok live p t tt b a hf'.1 h (fun a0 h0 => visitStmt_ok b live a0 hf'.2 h0)
-  | .doWhileS p b t tt, live, a, hf, h =>
-    have hf' : t.flat = true ∧ b.inF = true := by simpa [Stmt.inF] using hf
-    doWhile_ok live p b t tt a hf'.1 h (fun a0 h0 => visitStmt_ok b live a0 hf'.2 h0)
-  | .forS p i u t ht tt b, live, a, hf, h =>
-    have hf' : ((i.flat = true ∧ u.flat = true) ∧ t.flat = true) ∧ b.inF = true := by simpa [Stmt.inF] using hf
-    for_ok live p i u t ht tt b a hf'.1.1.1 hf'.1.1.2 hf'.1.2 h (fun a0 h0 => visitStmt_ok b live a0 hf'.2 h0)
-  | .forInOf p l r b, live, a, hf, h =>
-    have hf' : (l.flat = true ∧ r.flat = true) ∧ b.inF = true := by simpa [Stmt.inF] using hf
-    forInOf_ok live p l r b a hf'.1.1 hf'.1.2 h (fun a0 h0 => visitStmt_ok b live a0 hf'.2 h0)
-  | .brk p none, live, a, _, h => brk_ok live p a h
-  | .cont p none, live, a, _, h => cont_ok live p a h
-  | .ret p arg, live, a, hf, h => ret_ok live p arg a (by simpa [Stmt.inF] using hf) h
-  | .throw p arg, live, a, hf, h => throw_ok live p arg a (by simpa [Stmt.inF] using hf) h
-  | .brk _ (some _), _, _, hf, _ => by simp [Stmt.inF] at hf
-  | .cont _ (some _), _, _, hf, _ => by simp [Stmt.inF] at hf
-  | .switchS .., _, _, hf, _ => by simp [Stmt.inF] at hf
-  | .tryS .., _, _, hf, _ => by simp [Stmt.inF] at hf
-  | .labeled .., _, _, hf, _ => by simp [Stmt.inF] at hf
-theorem visitStmts_ok : ∀ (l : Stmts) (live : Bool) (a : A), l.inF = true → Pre live l.positions a →
-    PostL live l.positions l.compl l.reach a (visitStmts l a)
-  | .nil, live, a, _, h => by
-    simp only [visitStmts, Stmts.positions, Stmts.compl]
-    exact PostL.nil live a h
-  | .cons s r, live, a, hf, h => by
-    have hf' : s.inF = true ∧ r.inF = true := by simpa [Stmts.inF] using hf
-    have hnd : (s.positions ++ r.positions).Nodup := h.nodup
-    have hnd' := List.nodup_append.mp hnd
-    have hdisj : ∀ p, p ∈ s.positions → p ∈ r.positions → False := fun p h1 h2 => hnd'.2.2 p h1 p h2 rfl
-    have h1 := sob_ok live s a _ (visitStmt_ok s live a hf'.1
-      (h.sub (fun p hp => List.mem_append.mpr (Or.inl hp)) hnd'.1))
-    have hpre2 : Pre (live && (s.compl []).n) r.positions (sobTail s (visitStmt s a)) := by
-      refine ⟨h1.p1, ?_, hnd'.2.1, h1.fb⟩
-      intro p hp
-      rw [endAt_eq_of_info_eq (h1.frame p (fun hps => hdisj p hps hp))]
-      exact h.fresh p (List.mem_append.mpr (Or.inr hp))
-    have h2 := visitStmts_ok r (live && (s.compl []).n) _ hf'.2 hpre2
-    simp only [visitStmts, Stmts.positions, Stmts.compl]
-    have := seq_ok live s.positions r.positions (s.compl []) r.compl s.reach r.reach a _ _ h1.toPostL h2 hdisj
-      (fun p hp => s.reach_false p hf'.1 hp) (fun p hp => r.reach_false p hf'.2 hp)
-    refine ⟨this.p1, this.p2, this.p2c, this.monoB, this.monoC, this.fb, ?_, this.frame⟩
-    intro p hp hu
+theorem stmtsCons_ok (live : Bool) (s : Stmt) (r : Stmts) (a : A) (h : Pre live (Stmts.cons s r).positions a)
+    (ihs : ∀ a0, Pre live s.positions a0 → PostS live [] s a0 (visitStmt s a0))
+    (ihr : ∀ a0, Pre (live && (s.compl []).n) r.positions a0 →
+      PostL (live && (s.compl []).n) r.upos r.positions r.compl r.reach r.inner a0 (visitStmts r a0)) :
+    PostL live (Stmts.cons s r).upos (Stmts.cons s r).positions (Stmts.cons s r).compl (Stmts.cons s r).reach
+      (Stmts.cons s r).inner a (visitStmts (.cons s r) a) := by
+  have hnd : (s.positions ++ r.positions).Nodup := h.nodup
+  have hnd' := List.nodup_append.mp hnd
+  have hdisj : ∀ p, p ∈ s.positions → p ∈ r.positions → False := fun p h1 h2 => hnd'.2.2 p h1 p h2 rfl
+  have h1 := sob_ok live [] s a _ (ihs a (h.sub (fun p hp => List.mem_append.mpr (Or.inl hp)) hnd'.1))
+  have hpre2 : Pre (live && (s.compl []).n) r.positions (sobTail s (visitStmt s a)) := by
+    refine ⟨h1.p1, ?_, hnd'.2.1⟩
+    intro p hp
+    rw [endAt_eq_of_info_eq (h1.frame p (fun hps => hdisj p hps hp))]
+    exact h.fresh p (List.mem_append.mpr (Or.inr hp))
+  have h2 := ihr _ hpre2
+  simp only [visitStmts, Stmts.positions, Stmts.upos, Stmts.compl]
+  have := seq_ok live s.upos r.upos s.positions r.positions (s.compl []) r.compl s.reach r.reach s.inner r.inner a _ _
+    h1.toPostL h2 hdisj (Stmt.upos_sub s) (Stmts.upos_sub r)
+    (fun p hp => s.reach_false p hp) (fun p hp => r.reach_false p hp) (fun p hp => s.inner_false p hp) (fun p hp => r.inner_false p hp)
+  refine ⟨this.p1, this.p2, this.p2c, this.monoB, this.monoC, this.p2l, ?_, ?_, this.frame, this.monoT, this.pT⟩
+  · intro p hp hu
     have := this.p3 p hp hu
     simpa [Stmts.reach] using this
+  · intro p hp hu
+    have := this.p3i p hp hu
+    simpa [Stmts.inner] using this
+
+mutual
+theorem visitStmt_ok : ∀ (s : Stmt) (ls : List Id) (live : Bool) (a : A), s.inF = true → Pre live s.positions a →
+    PostS live ls s a (visitStmt s a)
+  | .simple p t kids, ls, live, a, hf, h =>
+    have hf' : kids.okF = true := by simpa [Stmt.inF] using hf
+    simple_ok live ls p t kids a hf' h (fun x hx => visitKids_ok kids x hf' hx)
+  | .block p b, ls, live, a, hf, h =>
+    have hf' : b.inF = true := by simpa [Stmt.inF] using hf
+    block_ok live ls p b a h (fun a0 h0 => visitStmts_ok b live a0 hf' h0)
+  | .ifS p t c none, ls, live, a, hf, h =>
+    have hf' : t.okF = true ∧ c.inF = true := by simpa [Stmt.inF] using hf
+    if_none_ok live ls p t c a h (fun x hx => visitKids_ok t x hf'.1 hx) (fun a0 h0 => visitStmt_ok c [] live a0 hf'.2 h0)
+  | .ifS p t c (some al), ls, live, a, hf, h =>
+    have hf' : (t.okF = true ∧ c.inF = true) ∧ al.inF = true := by simpa [Stmt.inF] using hf
+    if_some_ok live ls p t c al a h (fun x hx => visitKids_ok t x hf'.1.1 hx) (fun a0 h0 => visitStmt_ok c [] live a0 hf'.1.2 h0)
+      (fun a0 h0 => visitStmt_ok al [] live a0 hf'.2 h0)
+  | .whileS p t tt b, ls, live, a, hf, h =>
+    have hf' : t.okF = true ∧ b.inF = true := by simpa [Stmt.inF] using hf
+    while_ok live ls p t tt b a h (fun x hx => visitKids_ok t x hf'.1 hx) (fun a0 h0 => visitStmt_ok b [] live a0 hf'.2 h0)
+  | .doWhileS p b t tt, ls, live, a, hf, h =>
+    have hf' : t.okF = true ∧ b.inF = true := by simpa [Stmt.inF] using hf
+    doWhile_ok live ls p b t tt a h (fun x hx => visitKids_ok t x hf'.1 hx) (fun a0 h0 => visitStmt_ok b [] live a0 hf'.2 h0)
+  | .forS p i u t ht tt b, ls, live, a, hf, h =>
+    have hf' : ((i.okF = true ∧ u.okF = true) ∧ t.okF = true) ∧ b.inF = true := by simpa [Stmt.inF] using hf
+    for_ok live ls p i u t ht tt b a h (fun x hx => visitKids_ok i x hf'.1.1.1 hx) (fun x hx => visitKids_ok u x hf'.1.1.2 hx)
+      (fun x hx => visitKids_ok t x hf'.1.2 hx) (fun a0 h0 => visitStmt_ok b [] live a0 hf'.2 h0)
+  | .forInOf p l r b, ls, live, a, hf, h =>
+    have hf' : (l.okF = true ∧ r.okF = true) ∧ b.inF = true := by simpa [Stmt.inF] using hf
+    forInOf_ok live ls p l r b a h (fun x hx => visitKids_ok l x hf'.1.1 hx) (fun x hx => visitKids_ok r x hf'.1.2 hx)
+      (fun a0 h0 => visitStmt_ok b [] live a0 hf'.2 h0)
+  | .labeled p l b, ls, live, a, hf, h =>
+    have hf' : b.inF = true := by simpa [Stmt.inF] using hf
+    labeled_ok live ls p l b a h (fun a0 h0 => visitStmt_ok b (l :: ls) live a0 hf' h0)
+  | .brk p l, ls, live, a, _, h => brk_ok live ls l p a h
+  | .cont p l, ls, live, a, _, h => cont_ok live ls l p a h
+  | .ret p arg, ls, live, a, hf, h =>
+    have hf' : arg.okF = true := by simpa [Stmt.inF] using hf
+    ret_ok live ls p arg a h (fun x hx => visitKids_ok arg x hf' hx)
+  | .throw p arg, ls, live, a, hf, h =>
+    have hf' : arg.okF = true := by simpa [Stmt.inF] using hf
+    throw_ok live ls p arg a h (fun x hx => visitKids_ok arg x hf' hx)
+  | .switchS p d cs, ls, live, a, hf, h =>
+    have hf' : d.okF = true ∧ cs.inF = true := by simpa [Stmt.inF] using hf
+    switch_ok live ls p d cs a h (fun x hx => visitKids_ok d x hf'.1 hx) (fun a0 h0 => visitCases_ok cs live a0 hf'.2 h0)
+  | .tryS p bp b hh cp ck hf fp f, ls, live, a, hfr, h =>
+    have hf' : (((b.inF = true ∧ ck.okFn = true) ∧ f.inF = true) ∧ (hh = true ∨ ck.isNil = true)) ∧ (hf = true ∨ f.isNil = true) := by
+      simpa [Stmt.inF] using hfr
+    try_ok live ls p bp b hh cp ck hf fp f a
+      (hf'.1.2.imp id (fun h => by cases ck <;> simp_all [Kids.isNil]))
+      (hf'.2.imp id (fun h => by cases f <;> simp_all [Stmts.isNil])) h
+      (fun a0 h0 => visitStmts_ok b live a0 hf'.1.1.1.1 h0)
+      (fun c hc => visitKids_catch ck _ c hf'.1.1.1.2 hc)
+      (fun a0 h0 => visitStmts_ok f _ a0 hf'.1.1.2 h0)
+theorem visitStmts_ok : ∀ (l : Stmts) (live : Bool) (a : A), l.inF = true → Pre live l.positions a →
+    PostL live l.upos l.positions l.compl l.reach l.inner a (visitStmts l a)
+  | .nil, live, a, _, h => by
+    simp only [visitStmts, Stmts.positions, Stmts.upos, Stmts.compl]
+    exact PostL.nil live a h
+  | .cons s r, live, a, hf, h =>
+    have hf' : s.inF = true ∧ r.inF = true := by simpa [Stmts.inF] using hf
+    stmtsCons_ok live s r a h (fun a0 h0 => visitStmt_ok s [] live a0 hf'.1 h0)
+      (fun a0 h0 => visitStmts_ok r (live && (s.compl []).n) a0 hf'.2 h0)
+theorem visitCases_ok : ∀ (cs : Cases) (live : Bool) (a : A), cs.inF = true → Pre live cs.positions a →
+    PostC live cs a (visitCases cs a)
+  | .nil, live, a, _, _ => casesNil_ok live a
+  | .cons p d t b r, live, a, hf, h =>
+    have hf' : (t.okF = true ∧ b.inF = true) ∧ r.inF = true := by simpa [Cases.inF] using hf
+    casesCons_ok live p d t b r a h (fun x hx => visitKids_ok t x hf'.1.1 hx)
+      (fun a0 h0 => visitStmts_ok b live a0 hf'.1.2 h0) (fun a0 h0 => visitCases_ok r live a0 hf'.2 h0)
+theorem visitKid_ok : ∀ (k : Kid) (a : A), k.okF = true → PreK k.positions a →
+    PostK k.upos k.positions k.inner k.mayThrow a (visitKid k a)
+  | .expr e ks, a, hf, h =>
+    have hf' : ks.okF = true := by simpa [Kid.okF] using hf
+    expr_ok e ks a (visitKids_ok ks a hf' h)
+  | .fnScope p ks, a, hf, h =>
+    have hf' : ks.okFn = true := by simpa [Kid.okF] using hf
+    fnScope_ok p ks a h (fun x hx he => visitKids_fn ks x hf' hx he)
+  | .block _ _, _, hf, _ => by simp [Kid.okF] at hf
+  | .stmt _, _, hf, _ => by simp [Kid.okF] at hf
+theorem visitKids_ok : ∀ (ks : Kids) (a : A), ks.okF = true → PreK ks.positions a →
+    PostK ks.upos ks.positions ks.inner ks.mayThrow a (visitKids ks a)
+  | .nil, a, _, _ => PostK.nil a
+  | .cons k r, a, hf, h =>
+    have hf' : k.okF = true ∧ r.okF = true := by simpa [Kids.okF] using hf
+    kidsCons_ok k r a h (fun x hx => visitKid_ok k x hf'.1 hx) (fun x hx => visitKids_ok r x hf'.2 hx)
+theorem visitKids_fn : ∀ (ks : Kids) (a : A), ks.okFn = true → PreK ks.positions a → a.sc.end_ = none →
+    PostI ks.upos ks.positions ks.fnReach a (visitKids ks a)
+  | .nil, a, _, _, _ => okFn_nil a
+  | .cons (.block q body) .nil, a, hf, h, he =>
+    have hf' : body.inF = true := by simpa [Kids.okFn, Kids.isNil] using hf
+    okFn_block q body a h he (fun a0 h0 => visitStmts_ok body true a0 hf' h0)
+  | .cons (.block q body) (.cons _ _), a, hf, _, _ => by simp [Kids.okFn, Kids.isNil] at hf
+  | .cons (.expr e ks) r, a, hf, h, he =>
+    have hf' : ks.okF = true ∧ r.okFn = true := by simpa [Kids.okFn] using hf
+    okFn_cons (.expr e ks) r a h he (fun _ => rfl) (fun q => Kid.flowReach_okF _ q (by simpa [Kid.okF] using hf'.1))
+      (fun x hx => visitKid_ok (.expr e ks) x (by simpa [Kid.okF] using hf'.1) hx)
+      (fun x hx he' => visitKids_fn r x hf'.2 hx he')
+  | .cons (.fnScope p ks) r, a, hf, h, he =>
+    have hf' : ks.okFn = true ∧ r.okFn = true := by simpa [Kids.okFn] using hf
+    okFn_cons (.fnScope p ks) r a h he (fun _ => rfl) (fun _ => rfl)
+      (fun x hx => visitKid_ok (.fnScope p ks) x (by simpa [Kid.okF] using hf'.1) hx)
+      (fun x hx he' => visitKids_fn r x hf'.2 hx he')
+  | .cons (.stmt _) _, _, hf, _, _ => by simp [Kids.okFn] at hf
+theorem visitKids_catch : ∀ (ks : Kids) (live : Bool) (a : A), ks.okFn = true → Pre live ks.positions a →
+    PostL live ks.upos ks.positions ks.catchCompl ks.catchReach ks.inner a (visitKids ks a)
+  | .nil, live, a, _, h => catchNil_ok live a h
+  | .cons (.block q body) .nil, live, a, hf, h =>
+    have hf' : body.inF = true := by simpa [Kids.okFn, Kids.isNil] using hf
+    catchBlock_ok live q body a h (fun a0 h0 => visitStmts_ok body live a0 hf' h0)
+  | .cons (.block q body) (.cons _ _), _, _, hf, _ => by simp [Kids.okFn, Kids.isNil] at hf
+  | .cons (.expr e ks) r, live, a, hf, h =>
+    have hf' : ks.okF = true ∧ r.okFn = true := by simpa [Kids.okFn] using hf
+    catchCons_ok live (.expr e ks) r a h (by simp [Kids.catchCompl]) (fun _ => by simp [Kids.catchReach])
+      (fun x hx => visitKid_ok (.expr e ks) x (by simpa [Kid.okF] using hf'.1) hx)
+      (fun x hx => visitKids_catch r live x hf'.2 hx)
+  | .cons (.fnScope p ks) r, live, a, hf, h =>
+    have hf' : ks.okFn = true ∧ r.okFn = true := by simpa [Kids.okFn] using hf
+    catchCons_ok live (.fnScope p ks) r a h (by simp [Kids.catchCompl]) (fun _ => by simp [Kids.catchReach])
+      (fun x hx => visitKid_ok (.fnScope p ks) x (by simpa [Kid.okF] using hf'.1) hx)
+      (fun x hx => visitKids_catch r live x hf'.2 hx)
+  | .cons (.stmt _) _, _, _, hf, _ => by simp [Kids.okFn] at hf
 end
 
 end DL.CF
